@@ -373,13 +373,16 @@ func (w *world) start(e evT) error {
 				w.finish(call, "err")
 			}
 		}()
-	case "lgreq":
+	case "lgreq", "lgreqh":
 		wr := e.V == "wr"
+		if e.K == "lgreqh" {
+			w.pair.SetHold(0, 80) // the transport holds the global request's writePacket
+		}
 		go func() {
 			ok, _, err := w.m.SendRequest("x", wr, nil)
 			w.finish(call, reqRes(ok, err, wr))
 		}()
-	case "lcreq", "closech":
+	case "lcreq", "lcreqh", "closech":
 		if e.ID < 1 || e.ID > len(w.objs) || w.objs[e.ID-1].ch == nil {
 			return fmt.Errorf("event %v: the application does not hold channel object %d", e, e.ID)
 		}
@@ -394,6 +397,9 @@ func (w *world) start(e evT) error {
 				}
 			}()
 		} else {
+			if e.K == "lcreqh" {
+				w.pair.SetHold(0, 98) // the transport holds the channel request's writePacket
+			}
 			go func() {
 				ok, err := ch.SendRequest("x", wr, nil)
 				w.finish(call, reqRes(ok, err, wr))
@@ -442,10 +448,21 @@ type obsT struct {
 func (w *world) step(e evT) (obsT, error) {
 	var o obsT
 	switch e.K {
-	case "opench", "lgreq", "lcreq", "accept", "reject", "closech":
+	case "opench", "lgreq", "lcreq", "lgreqh", "lcreqh", "accept", "reject", "closech":
 		if err := w.start(e); err != nil {
 			return o, err
 		}
+		if e.K == "lgreqh" || e.K == "lcreqh" {
+			synctest.Wait()
+			if w.pair.Holding() == 0 {
+				w.pair.Release() // the request never reached the transport (closed channel / dead mux)
+			}
+		}
+	case "release":
+		if w.pair.Holding() != 1 {
+			return o, fmt.Errorf("release: %d writes are held by the transport, the model says 1", w.pair.Holding())
+		}
+		w.pair.Release()
 	case "peereof":
 		w.peer.Close()
 	default:
@@ -511,6 +528,7 @@ type mismatch struct {
 // cleanup releases every goroutine the replay started.
 func (w *world) cleanup() {
 	close(w.stop)
+	w.pair.Release()
 	w.peer.Close()
 	w.m.Close()
 	for _, o := range w.objs {
@@ -562,7 +580,9 @@ func replayIn(t *testing.T, c *caseT) (mm *mismatch) {
 				return
 			}
 		}
-		// the connection ends
+		// the connection ends (a write still held by the transport returns first)
+		w.pair.Release()
+		synctest.Wait()
 		w.peer.Close()
 		synctest.Wait()
 		w.mu.Lock()
@@ -779,6 +799,8 @@ func runChildren(t *testing.T, out *vutil.Out, mode, childTest string, ncases in
 	}
 	out.Extra["child_crashes_"+mode] = crashes
 	// collect mismatches
+	perSig := map[string]int{}
+	defer func() { out.Extra["mismatches_by_signature_"+mode] = perSig }()
 	if fh, err := os.Open(report); err == nil {
 		defer fh.Close()
 		sc := bufio.NewScanner(fh)
@@ -791,6 +813,10 @@ func runChildren(t *testing.T, out *vutil.Out, mode, childTest string, ncases in
 			var cs any
 			if r.Case < len(cases) {
 				cs = cases[r.Case]
+			}
+			perSig[r.Sig]++
+			if perSig[r.Sig] > 4 { // keep a few per signature so that one frequent finding cannot crowd out another
+				continue
 			}
 			out.Violation(r.Sig, "real mux differs from SSHMux: "+r.What, map[string]any{"mismatch": r.Mismatch, "case": cs, "cfg": r.Cfg})
 			t.Errorf("%s: case %d: %s got=%v want=%v", r.Sig, r.Case, r.What, r.Mismatch.Got, r.Mismatch.Want)
